@@ -612,7 +612,7 @@ theorem inv_new (s s' : CSt) (a a' : Nat) (op : COp) (hal : CAlign s) (hs : cste
     · omega
 
 theorem ct_length_mono (s s' : CSt) (e : CEv) (hs : cstep s e = some s') : s.ct.length ≤ s'.ct.length := by
-  rcases cstep_base s s' e hs with ⟨be, _, _, hct, _⟩ | ⟨a0, op, _, _, hct⟩ | ⟨a0, _, _, hct⟩ | ⟨_, hct, _⟩ |
+  rcases cstep_base s s' e hs with ⟨be, _, _, hct, _⟩ | ⟨a0, op, _, _, hct⟩ | ⟨a0, _, _, hct, _⟩ | ⟨_, hct, _⟩ |
       ⟨a0, v, x, k, pc, live, flag, self, told, c0, _, _, _, _, hct⟩
   · rw [hct]; omega
   · rw [hct]; simp
